@@ -53,8 +53,10 @@ def gen_cases(rng, tier):
         tag = ''.join(rng.choice('abcdefghk') for _ in range(3))
         script, w, exp = RW.gen_history(rng, tag)
         r = rng.random()
-        if r < 0.7 or not w.order:
+        if r < 0.45 or not w.order:
             q = _dirq(w, script)
+        elif r < 0.7:
+            q = {'k': 'scales', 'syms': list(w.order)}
         else:
             u = rng.choice(w.order)
             via = rng.choice([None, w.units[u]['cls'],
@@ -108,6 +110,15 @@ def oracle(case, r):
             want = w.classes[c]['units']
             if ob is None or list(ob) != list(want):
                 return f"{c}.units() lists {ob}, declared for it: {want}"
+        return None
+    if q['k'] == 'scales':
+        for s, ob in zip(q['syms'], res['v']):
+            c = w.classes[w.units[s]['cls']]
+            want = None if c['quantum'] is not None else w.scale(s)
+            got = None if ob is None else F(ob)
+            if got != want:
+                return (f"unit {s!r} of {c['name']}: scale {got} relative to the reference unit "
+                        f"{c['ref']!r}, its definition denotes {want}")
         return None
     if q['k'] == 'mk':
         u = w.units[q['u']]
